@@ -36,6 +36,13 @@ package local
 //@   ensures[noscan] !e.readOnly && len(paths) == len(digests) && len(paths) > 0 && !old(e.scannedSinceLastStageCall) ==> result3 != nil
 //@   at call stager.Initialize assert[noscan] old(e.scannedSinceLastStageCall) && !e.readOnly
 //@   at call stager.Contains assert[noscan] old(e.scannedSinceLastStageCall) && !e.readOnly
+//@   ensures[readonly] e.readOnly ==> result3 != nil && len(result0) == 0 && len(result1) == 0 && result2 == nil
+//@   ensures[readonly] e.readOnly ==> e.scannedSinceLastStageCall == old(e.scannedSinceLastStageCall) && e.readOnly == old(e.readOnly)
+//@   at call lockScanLock assert[readonly] !e.readOnly
+//@   at call stager.Initialize assert[readonly] !e.readOnly
+//@   at call stager.Contains assert[readonly] !e.readOnly
+//@   at call stager.Sink assert[readonly] !e.readOnly
+//@   at call stageFromRoot assert[readonly] !e.readOnly
 //@   ensures[consumed] result3 == nil && len(paths) > 0 ==> !e.scannedSinceLastStageCall
 //@   ensures[limit] result3 == nil && len(paths) > 0 && e.maximumEntryCount != 0 ==> old(e.lastScanEntryCount) + len(paths) <= e.maximumEntryCount
 //@   ensures[subset] result3 == nil ==> len(result0) <= len(paths)
@@ -66,6 +73,10 @@ package local
 //@   ensures[noscan] !e.readOnly && !old(e.scannedSinceLastTransitionCall) ==> result3 != nil
 //@   at call core.Transition assert[noscan] old(e.scannedSinceLastTransitionCall) && !e.readOnly
 //@   at call core.Transition assert[limit] e.maximumEntryCount != 0 ==> resultingEntryCount == rcount(transitions, len(transitions), old(e.lastScanEntryCount)) && resultingEntryCount <= e.maximumEntryCount
+//@   ensures[readonly] e.readOnly ==> result3 != nil && len(result0) == 0 && len(result1) == 0 && !result2
+//@   ensures[readonly] e.readOnly ==> e.scannedSinceLastTransitionCall == old(e.scannedSinceLastTransitionCall) && e.readOnly == old(e.readOnly)
+//@   at call lockScanLock assert[readonly] !e.readOnly
+//@   at call core.Transition assert[readonly] !e.readOnly
 //@   ensures[consumed] !e.readOnly && old(e.scannedSinceLastTransitionCall) ==> !e.scannedSinceLastTransitionCall || result3 != nil
 //@   loop 1 invariant[limit] rangeindex < len(transitions) && resultingEntryCount == rcount(transitions, rangeindex + 1, old(e.lastScanEntryCount))
 
@@ -101,3 +112,9 @@ package local
 //@ func (*endpoint).watchPoll
 //@   requires e != nil
 //@   loop 1 invariant[notify] previous != prev(previous) && !prev(first) && !snapEq(previous, prev(previous)) ==> strobes[e.pollSignal] > prev(strobes[e.pollSignal])
+
+// C02: a local endpoint created as the alpha side of a one-way session is
+// read-only (and only such an endpoint is).
+//@ func NewEndpoint
+//@   requires configuration != nil
+//@   ensures[readonly] result1 == nil && !configuration.SynchronizationMode.IsDefault() ==> unboxptr(result0, "endpoint") != nil && (unboxptr(result0, "endpoint").readOnly <==> (alpha && (configuration.SynchronizationMode == core.SynchronizationMode_SynchronizationModeOneWaySafe || configuration.SynchronizationMode == core.SynchronizationMode_SynchronizationModeOneWayReplica)))
